@@ -299,6 +299,31 @@ func c25Drive(mk func(io.Writer) eager.Format, t c25Table) (out c25Out) {
 	return out
 }
 
+// c25PrintedNames: the naming convention of the printed formats, written independently of formats.WithoutQualifiers:
+// the part after the first dot if no other column has the same short name, else the full name.
+func c25PrintedNames(names []string) []string {
+	short := func(n string) string {
+		if i := strings.IndexByte(n, '.'); i >= 0 {
+			return n[i+1:]
+		}
+		return n
+	}
+	out := make([]string, len(names))
+	for i, n := range names {
+		unique := true
+		for j, m := range names {
+			if j != i && short(m) == short(n) {
+				unique = false
+			}
+		}
+		out[i] = n
+		if unique {
+			out[i] = short(n)
+		}
+	}
+	return out
+}
+
 func c25JSON(w io.Writer) eager.Format { return formats.NewJSONFormatter(w) }
 func c25CSV(w io.Writer) eager.Format  { return formats.NewCSVFormatter(w) }
 
@@ -729,7 +754,7 @@ func c25CheckJSON(r *findings.Run, t c25Table) {
 		}
 		// the line is one JSON object with exactly the columns
 		undefined := 0
-		w := c25Want{K: "object", Keys: t.Names}
+		w := c25Want{K: "object", Keys: c25PrintedNames(t.Names)}
 		for _, c := range row {
 			w.Elems = append(w.Elems, c.W)
 		}
@@ -844,7 +869,7 @@ func c25CheckCSV(r *findings.Run, t c25Table, st *c25Stats) {
 		r.Violation("C25/csv/record-count", fmt.Sprintf("-o csv: %d rows + header decode to %d records: %s", len(t.Rows), len(recs), strconv.QuoteToASCII(string(out.All))), c25MkCase("csv", t, 0, out.All, "record count"))
 		return
 	}
-	if strings.Join(recs[0], "\x00") != strings.Join(t.Names, "\x00") {
+	if strings.Join(recs[0], "\x00") != strings.Join(c25PrintedNames(t.Names), "\x00") {
 		r.Violation("C25/csv/header", fmt.Sprintf("-o csv: header %q for columns %q", recs[0], t.Names), c25MkCase("csv", t, 0, out.Header, "header"))
 		return
 	}
@@ -1184,6 +1209,16 @@ func c25Tables(r *findings.Run) []c25Table {
 				ts = append(ts, c25Table{Names: names, Types: []octosql.Type{x.T, y.T, z.T}, Rows: [][]c25Cell{{x, y, z}}})
 			}
 		}
+	}
+	// column-name shapes: qualified names are printed without their qualifier only when the short name is unique among
+	// all columns of the row (otherwise two members / header cells would carry the same name and a value would be lost)
+	for _, nm := range [][]string{{"t.x", "x"}, {"x", "t.x"}, {"t.x", "u.x"}, {"t.x", "t.y"}, {"t.x", "u.y", "y"}, {"t.x", "x", "u.x"}, {"a.b.c", "c"}, {"t.x", "u.y", "z"}} {
+		cells := []c25Cell{c25Int(1), c25Str("v"), c25Null()}[:len(nm)]
+		var types []octosql.Type
+		for _, c := range cells {
+			types = append(types, c.T)
+		}
+		ts = append(ts, c25Table{Names: nm, Types: types, Rows: [][]c25Cell{cells}, Seq: true})
 	}
 	// multi-row multi-column streams: every pair as consecutive rows of one 2-column nullable table
 	for _, x := range reps {
